@@ -367,4 +367,6 @@ def run(chk, tier):
 
     # ------------------------------------------------------------------ 5
     c03.endianness_purity(chk, fx)
+    from . import shared
+    shared.value_reader_codec_calls(chk, fx, "value-reader-codec-calls")
     chk.undecided.append("byte equality of rewritten streams (needs an independent reference encoder and execution); nested length staleness after in-place edits is a documented limitation of NoChange")
